@@ -12,6 +12,7 @@ import SkNet.Lemmas.Reorder
 import SkNet.Lemmas.GetDendroMono
 import SkNet.Lemmas.Builders
 import SkNet.Lemmas.Split
+import SkNet.Lemmas.SplitAgree
 
 namespace SkNet.C07
 open SkNet SkNet.Dendro SkNet.Hier
@@ -394,5 +395,43 @@ theorem split_valid {α : Type} {D : Dendro α} {n1 n2 : Nat} (h1 : 0 < n1) (h2 
 example : ValidDendro 4 ([⟨0, 2, 1, 2⟩, ⟨1, 3, 1, 2⟩, ⟨4, 5, 2, 4⟩] : Dendro Nat) = true ∧
     (splitDendrogram ([⟨0, 2, 1, 2⟩, ⟨1, 3, 1, 2⟩, ⟨4, 5, 2, 4⟩] : Dendro Nat) 2 2).toOption =
       some ([⟨0, 1, 2, 2⟩], [⟨0, 1, 2, 2⟩]) := by decide
+
+
+theorem side_agrees {α : Type} {m N off : Nat} {D : Dendro α} (hm : 0 < m) (hN : off + m ≤ N)
+    (hv : ValidDendro N D = true) :
+    ∀ (u : Nat) (ru : Row α), (sideLoop N 0 D (sideInit α m off)).rows[u]? = some ru →
+      ∃ (t : Nat) (rt : Row α), D[t]? = some rt ∧ ru.h = rt.h ∧
+        leaves m (sideLoop N 0 D (sideInit α m off)).rows (m + u) = sideOf m off (leaves N D (N + t)) := by
+  have hvl : validLoop N 0 D (liveInit (List.replicate N 1)) = true := by
+    unfold ValidDendro ValidDendroW at hv
+    simp only [Bool.and_eq_true, List.length_replicate] at hv
+    exact hv.2
+  rw [validLoop_eq_isSome] at hvl
+  obtain ⟨Lf, hLf⟩ := Option.isSome_iff_exists.mp hvl
+  have hinit : LInv N 0 (liveInit (List.replicate N 1)) := by simpa using linv_init (List.replicate N 1)
+  have := sideLoop_ainv (α := α) (m := m) (N := N) (off := off) D [] _ _ _ Lf (sinv_init (α := α) m N off hm hN)
+    (ainv_init m N off hN) (by simpa using hinit) (by simpa using hLf)
+  simpa using this.rowsOK
+
+/-- **split_dendrogram agrees with the full dendrogram** (`split_agrees`): every merge of the row dendrogram is, at the
+    same height, the restriction to the rows of a merge of the full dendrogram (its leaves are the rows below that
+    merge, in the same order); likewise every merge of the column dendrogram with the columns renumbered from 0. -/
+theorem split_agrees {α : Type} {D : Dendro α} {n1 n2 : Nat} (h1 : 0 < n1) (h2 : 0 < n2)
+    (hv : ValidDendro (n1 + n2) D = true) {R C : Dendro α} (h : splitDendrogram D n1 n2 = .ok (R, C)) :
+    (∀ (u : Nat) (ru : Row α), R[u]? = some ru → ∃ (t : Nat) (rt : Row α), D[t]? = some rt ∧ ru.h = rt.h ∧
+      leaves n1 R (n1 + u) = sideOf n1 0 (leaves (n1 + n2) D (n1 + n2 + t))) ∧
+    (∀ (u : Nat) (cu : Row α), C[u]? = some cu → ∃ (t : Nat) (rt : Row α), D[t]? = some rt ∧ cu.h = rt.h ∧
+      leaves n2 C (n2 + u) = sideOf n2 n1 (leaves (n1 + n2) D (n1 + n2 + t))) := by
+  have hlen := valid_length hv
+  unfold splitDendrogram at h
+  have e1 : ¬ (D.length < n1 + n2 - 1) := by omega
+  have e2 : D.take (n1 + n2 - 1) = D := List.take_of_length_le (by omega)
+  simp only [e1, if_false, e2, splitLoop_eq, Except.ok.injEq, Prod.mk.injEq] at h
+  obtain ⟨hR, hC⟩ := h
+  constructor
+  · have := side_agrees (m := n1) (N := n1 + n2) (off := 0) h1 (by omega) hv
+    rw [← hR]; exact this
+  · have := side_agrees (m := n2) (N := n1 + n2) (off := n1) h2 (by omega) hv
+    rw [← hC]; exact this
 
 end SkNet.C07
